@@ -534,7 +534,11 @@ pub fn read_layers<P: AsRef<Path>>(path: &P) -> Result<Vec<Layer>, ReadNpzError>
     let mut npz = NpzReader::new(file)?;
 
     let mut names = npz.names()?;
-    names.sort_unstable();
+    // order by the numeric layer index first, so that "10.x" follows "9.x" also without zero padding
+    names.sort_by_cached_key(|name| {
+        let digits = name.chars().take_while(|c| c.is_ascii_digit()).collect::<String>();
+        (digits.parse::<u64>().unwrap_or(u64::MAX), name.clone())
+    });
 
     let pattern = Regex::new(r"^(\d+)\.([A-Za-z._]*?)(\.npy)?$").unwrap();
 
